@@ -2,6 +2,7 @@ SPECIFICATION Spec
 CONSTANTS
   Names <- NamesT
   LitPool <- LitsFull
+  ActKinds = {"Define", "DefineFromVar", "Assign", "AssignFromVar", "IndexAssign", "OpAssign", "FieldAssign", "TupleElemAssign", "Eval", "Destructure", "DestructureVar", "OpAssignVar"}
   MaxScalar = 9
 INVARIANT EmitState
 CHECK_DEADLOCK FALSE
